@@ -69,36 +69,83 @@ class Slice:
         self.params = set()
 
 
-def backward_slice(f, local, max_nodes=400, through_calls=True):
-    defs = local_defs(f)
+def _fields_of(proj):
+    return tuple(e[2] for e in proj if isinstance(e, list) and e[0] == "f")
+
+
+def _compatible(a, b):
+    n = min(len(a), len(b))
+    return a[:n] == b[:n]
+
+
+def local_defs_full(f):
+    """local -> list of (bb, kind, payload, written field path)."""
+    if getattr(f, "_defs_full", None) is not None:
+        return f._defs_full
+    defs = defaultdict(list)
+    for bi, b in enumerate(f.blocks):
+        for s in b["s"]:
+            if s[0] == "a":
+                fp = _fields_of(s[1][1])
+                defs[s[1][0]].append((bi, "rv" if not s[1][1] else "partial", s[2], fp))
+        t = b["t"]
+        if t[0] == "call":
+            fp = _fields_of(t[3][1])
+            defs[t[3][0]].append((bi, "call" if not t[3][1] else "partialcall", t, fp))
+    f._defs_full = defs
+    return defs
+
+
+def backward_slice(f, local, max_nodes=400, through_calls=True, fields=()):
+    """Field-sensitive backward slice: nodes are (local, field path); a read of `x.a` follows
+    only stores to `x`, `x.a` or `x.a.*` (and whole-value definitions of x)."""
+    defs = local_defs_full(f)
     sl = Slice()
-    st = [local]
-    while st and len(sl.locals) < max_nodes:
-        l = st.pop()
-        if l in sl.locals:
+    st = [(local, tuple(fields))]
+    seen = set()
+    while st and len(seen) < max_nodes:
+        l, fp = st.pop()
+        if (l, fp) in seen:
             continue
+        seen.add((l, fp))
         sl.locals.add(l)
+        for x in fp:
+            sl.fields.add(x)
         if l in f.names:
             sl.names.add(f.names[l])
         if 1 <= l <= f.nargs:
             sl.params.add(l)
-        for bi, kind, p in defs.get(l, []):
+
+        def push_place(pl, extra=()):
+            st.append((pl[0], _fields_of(pl[1]) + tuple(extra)))
+            for e in pl[1]:
+                if isinstance(e, list) and e[0] == "i":
+                    st.append((e[1], ()))
+
+        for bi, kind, p, wfp in defs.get(l, []):
+            if kind in ("partial", "partialcall") and not _compatible(wfp, fp):
+                continue
             if kind in ("rv", "partial"):
                 rv = p
                 if rv[0] == "bin":
                     sl.binops.add(rv[1])
                 if rv[0] == "cast":
                     sl.casts.add(rv[1])
+                if rv[0] == "un":
+                    sl.binops.add("un:" + rv[1])
                 for o in operands_of_rvalue(rv):
                     if o[0] == "k":
                         sl.consts.append(o[1])
-                for pl in places_of_rvalue(rv):
-                    st.append(pl[0])
-                    for e in pl[1]:
-                        if isinstance(e, list) and e[0] == "f":
-                            sl.fields.add(e[2])
-                        if isinstance(e, list) and e[0] == "i":
-                            st.append(e[1])
+                rest = fp[len(wfp):] if kind == "partial" else fp
+                if rv[0] in ("ref", "ptr"):
+                    push_place(rv[2], rest)
+                elif rv[0] == "use":
+                    pl = op_place(rv[1])
+                    if pl is not None:
+                        push_place(pl, rest)
+                else:
+                    for pl in places_of_rvalue(rv):
+                        push_place(pl)
             else:
                 t = p
                 fop = t[1]
@@ -112,10 +159,7 @@ def backward_slice(f, local, max_nodes=400, through_calls=True):
                             sl.consts.append(a[1])
                         pl = op_place(a)
                         if pl is not None:
-                            st.append(pl[0])
-                            for e in pl[1]:
-                                if isinstance(e, list) and e[0] == "f":
-                                    sl.fields.add(e[2])
+                            push_place(pl)
     return sl
 
 
